@@ -67,6 +67,9 @@ def check(case):
     if common.failed_run(res, case, o, construct_is_violation=False):
         if o.exc is not None and o.stage == 'count':
             res.skipped = 'count-raises:%s' % type(o.exc).__name__
+        if o.exc is not None and o.stage == 'attributes':
+            res.fail('end-vs-election', 'end-vs-election|attributes|' + common.base_sig(case, o),
+                     'the election object does not report its winners/losers/withdrawn after the count: %r' % (o.exc,))
         return res
     base = common.base_sig(case, o)
     if o.exc is not None:
